@@ -48,6 +48,12 @@ let () =
              | [a; b; m] -> set_configuration_information rcfg (unhex m) (unhex a) (unhex b)
              | _ -> rcfg)
          | None -> rcfg in
+       (* prod=<hex model id>,<hex software code>,<hex model version>,<hex serial code>: SetProductInformation for device 0 *)
+       let rcfg = match (try Some (List.assoc "prod" kv) with Not_found -> None) with
+         | Some c -> (match String.split_on_char ',' c with
+             | [m; s; v; ser] -> set_product_information rcfg (unhex ser) (zi 666) (unhex m) (unhex s) (unhex v) (zi 1) (zi 2101) (zi 0)
+             | _ -> rcfg)
+         | None -> rcfg in
        let start = if cold then t0 else Z.sub t0 (zi 1000) in
        let r0 = cold_node w64 (zi mode) start (zi (q * ndev)) (zi nsl) pc devs (List.init ndev (fun i -> lst "rx" i)) rcfg in
        let r0 = if cold then r0 else prelude gf_none r0 hb t0 in
